@@ -67,9 +67,13 @@ func c09Mark(tag string) {
 	verifEvent(tag)
 }
 
+// c09Note: an event the monitors ignore (conc_C09.json gives it no check and no update):
+// no scheduling point of its own
+func c09Note(tag string) { verifEvent(tag) }
+
 func c09Ret(err error) {
 	if err != nil {
-		c09Mark("ret_err")
+		c09Note("ret_err")
 	} else {
 		c09Mark("ret_ok")
 	}
@@ -87,7 +91,7 @@ func VerifC09ThreadResolveAndCompile() {
 	ctx := c09Ctx()
 	_, err := ctx.ResolveAndCompile("/vfs/nosuch", py.CompileOpts{})
 	_ = err // the file does not exist: an error either way; what matters is that the request is released
-	c09Mark("request_done")
+	c09Note("request_done")
 }
 
 //verif:conc C09
@@ -96,13 +100,13 @@ func VerifC09ThreadModuleInit() {
 	// a module with code: ModuleInit runs it through RunCode (a nested request)
 	_, err := ctx.ModuleInit(&py.ModuleImpl{Info: py.ModuleInfo{Name: "c09mod"}, Code: &py.Code{}})
 	_ = err
-	c09Mark("request_done")
+	c09Note("request_done")
 }
 
 //verif:conc C09
 func VerifC09ThreadClose() {
 	ctx := c09Ctx()
-	c09Mark("close_call")
+	c09Note("close_call")
 	err := ctx.Close()
 	_ = err
 	c09Mark("close_ret")
